@@ -28,6 +28,10 @@ class Fun2(pytrans.Fun):
         if isinstance(e.func, ast.Attribute) and e.func.attr == "join" and len(e.args) == 1 and not e.keywords:
             args = [self.expr(e.func.value, locals_), self.expr(e.args[0], locals_)]
             return self.with_args(args, lambda a: ("(py_join %s %s)" % (a[0], a[1]), False))
+        if isinstance(e.func, ast.Name) and (e.func.id, len(e.args)) in getattr(self, "oracle_functions", {}) and not e.keywords:
+            args = [self.expr(a, locals_) for a in e.args]
+            fn = self.oracle_functions[(e.func.id, len(e.args))]
+            return self.with_args(args, lambda a: ("(%s %s)" % (fn, " ".join(a)), False))
         if isinstance(e.func, ast.Attribute) and (e.func.attr, len(e.args)) in getattr(self, "oracle_methods", {}) and not e.keywords:
             args = [self.expr(e.func.value, locals_)] + [self.expr(a, locals_) for a in e.args]
             fn = self.oracle_methods[(e.func.attr, len(e.args))]
@@ -564,6 +568,109 @@ def gen02full(repo, parts_code):
     return "\n".join(out) + "\n"
 
 
+def gen01(repo):
+    """verify_metadata_signatures (C01): every supplied key must verify, an empty key set is refused.
+    `_check_public_keys(keys_dict)` and `metadata.verify_signature(key)` are oracles (Section variables)."""
+    vt = pytrans.load(repo, "in_toto/verifylib.py")
+    fn = pytrans.find_function(vt, "verify_metadata_signatures")
+    if [a.arg for a in fn.args.args] != ["metadata", "keys_dict"]:
+        raise Unsupported("verify_metadata_signatures: parameters changed")
+    imp = [n for n in vt.body if isinstance(n, ast.ImportFrom) and n.module == "in_toto.formats"
+           and any(a.name == "_check_public_keys" and a.asname is None for a in n.names)]
+    if not imp:
+        raise Unsupported("`_check_public_keys` is not in_toto.formats._check_public_keys")
+    tr = Fun2({}, {})
+    tr.oracle_methods = {("verify_signature", 1): "o_verify_signature"}
+    tr.oracle_functions = {("_check_public_keys", 1): "o_check_public_keys"}
+    code, _ = tr.function(fn, drop_self=False)
+    out = ["(* generated by tools/pytrans2.py from %s — do not edit *)" % repo,
+           "From InToto.Model Require Import Base Json PyLib Glob PyLibGlob.", "",
+           "Section Oracles.",
+           "  (** metadata.verify_signature(key) of a metadata object; in_toto.formats._check_public_keys(keys) *)",
+           "  Variable o_verify_signature : pyval -> pyval -> res pyval.",
+           "  Variable o_check_public_keys : pyval -> res pyval.", "",
+           "(* in_toto/verifylib.py : verify_metadata_signatures, line %d *)" % fn.lineno,
+           code, "End Oracles."]
+    return "\n".join(out) + "\n"
+
+
+def gen16(repo):
+    """substitute_parameters (C16) as a FUNCTION of the layout's steps, inspections and the parameter dictionary.
+    The source mutates the Step / Inspection objects: each loop over `layout.steps` / `layout.inspect` ends with three
+    attribute assignments to the loop variable.  Rewriting (fail closed on the shape): the three assigned values of every
+    element are collected, in the order of the assignments, into a list that the function returns -
+        [[[v1, v2, v3] per step], [[v1, v2, v3] per inspection]]
+    - and the names of the assigned attributes are emitted as constants for the tie to check.  `s.format(**parameter_dictionary)`
+    and `_check_parameter_dict(parameter_dictionary)` are oracles (Section variables)."""
+    import copy
+    vt = pytrans.load(repo, "in_toto/verifylib.py")
+    fn = copy.deepcopy(pytrans.find_function(vt, "substitute_parameters"))
+    if [a.arg for a in fn.args.args] != ["layout", "parameter_dictionary"]:
+        raise Unsupported("substitute_parameters: parameters changed")
+    body = [s for s in fn.body if not (isinstance(s, ast.Expr) and isinstance(s.value, ast.Constant))]
+    if len(body) != 3 or ast.unparse(body[0]) != "_check_parameter_dict(parameter_dictionary)":
+        raise Unsupported("substitute_parameters: expected the parameter check followed by two loops")
+    name = lambda n: ast.Name(id=n, ctx=ast.Load())
+    attrs_out = []
+
+    class Fmt(ast.NodeTransformer):
+        def visit_Call(self, node):
+            self.generic_visit(node)
+            if isinstance(node.func, ast.Attribute) and node.func.attr == "format":
+                if node.args or len(node.keywords) != 1 or node.keywords[0].arg is not None or \
+                        ast.unparse(node.keywords[0].value) != "parameter_dictionary":
+                    raise Unsupported("substitute_parameters: a format call that is not .format(**parameter_dictionary)")
+                return ast.Call(func=name("format_with"), args=[node.func.value, name("parameter_dictionary")], keywords=[])
+            return node
+
+    new_body = [body[0]]
+    results = []
+    for loop, coll, over in ((body[1], "new_steps", "layout.steps"), (body[2], "new_inspections", "layout.inspect")):
+        if not (isinstance(loop, ast.For) and isinstance(loop.target, ast.Name) and ast.unparse(loop.iter) == over and not loop.orelse):
+            raise Unsupported("substitute_parameters: expected `for x in %s`" % over)
+        var = loop.target.id
+        tail = loop.body[-3:]
+        names, vals = [], []
+        for st in tail:
+            if not (isinstance(st, ast.Assign) and len(st.targets) == 1 and isinstance(st.targets[0], ast.Attribute)
+                    and isinstance(st.targets[0].value, ast.Name) and st.targets[0].value.id == var
+                    and isinstance(st.value, ast.Name)):
+                raise Unsupported("substitute_parameters: the loop over %s does not end with three attribute assignments" % over)
+            names.append(st.targets[0].attr)
+            vals.append(st.value.id)
+        for st in loop.body[:-3]:
+            for x in ast.walk(st):
+                if isinstance(x, ast.Attribute) and isinstance(x.ctx, ast.Store):
+                    raise Unsupported("substitute_parameters: an attribute is assigned before the end of the loop body")
+        attrs_out.append(names)
+        lb = [Fmt().visit(st) for st in loop.body[:-3]]
+        lb.append(ast.Expr(value=ast.Call(func=ast.Attribute(value=name(coll), attr="append", ctx=ast.Load()),
+                                          args=[ast.List(elts=[name(v) for v in vals], ctx=ast.Load())], keywords=[])))
+        new_body.append(ast.Assign(targets=[ast.Name(id=coll, ctx=ast.Store())], value=ast.List(elts=[], ctx=ast.Load()), lineno=loop.lineno))
+        new_body.append(ast.For(target=loop.target, iter=loop.iter, body=lb, orelse=[], lineno=loop.lineno))
+        results.append(coll)
+    new_body.append(ast.Return(value=ast.List(elts=[name(r) for r in results], ctx=ast.Load())))
+    fn.body = new_body
+    fn.args.args = [ast.arg("layout_steps"), ast.arg("layout_inspect"), ast.arg("parameter_dictionary")]
+    ast.fix_missing_locations(fn)
+    tr = Fun2({}, {}, attr_params=["layout.steps", "layout.inspect"])
+    tr.data_attrs = ("expected_materials", "expected_products", "expected_command", "run")
+    tr.oracle_functions = {("_check_parameter_dict", 1): "o_check_parameter_dict", ("format_with", 2): "o_format"}
+    code, _ = tr.function(fn, drop_self=False)
+    out = ["(* generated by tools/pytrans2.py from %s — do not edit *)" % repo,
+           "From InToto.Model Require Import Base Json PyLib Glob PyLibGlob.", "",
+           "(** the attributes the two loops assign, in the order of the assignments *)",
+           "Definition c_step_attrs : list str := [%s]." % "; ".join(pytrans.coq_str(a) for a in attrs_out[0]),
+           "Definition c_inspection_attrs : list str := [%s]." % "; ".join(pytrans.coq_str(a) for a in attrs_out[1]), "",
+           "Section Oracles.",
+           "  (** str.format with the parameter dictionary as keyword arguments; in_toto.formats._check_parameter_dict *)",
+           "  Variable o_format : pyval -> pyval -> res pyval.",
+           "  Variable o_check_parameter_dict : pyval -> res pyval.", "",
+           "(* in_toto/verifylib.py : substitute_parameters, line %d *)" % fn.lineno,
+           code, "End Oracles."]
+    return "\n".join(out) + "\n"
+
+
 def main():
     repo, outdir = sys.argv[1], sys.argv[2]
     os.makedirs(outdir, exist_ok=True)
@@ -606,6 +713,22 @@ def main():
             sys.exit(1)
         with open(os.path.join(outdir, "Fun02.v"), "w") as f:
             f.write(text02)
+    if "--layout-signatures" in sys.argv[3:]:
+        try:
+            text01 = gen01(repo)
+        except (Unsupported, SyntaxError, OSError) as e:
+            print("TRANSLATOR-ERROR Fun01.v: %s" % e)
+            sys.exit(1)
+        with open(os.path.join(outdir, "Fun01.v"), "w") as f:
+            f.write(text01)
+    if "--substitute" in sys.argv[3:]:
+        try:
+            text16 = gen16(repo)
+        except (Unsupported, SyntaxError, OSError) as e:
+            print("TRANSLATOR-ERROR Fun16.v: %s" % e)
+            sys.exit(1)
+        with open(os.path.join(outdir, "Fun16.v"), "w") as f:
+            f.write(text16)
     if "--items" in sys.argv[3:]:
         try:
             text3 = gen3(repo)
